@@ -2,12 +2,12 @@ package main
 
 import (
 	"encoding/json"
-	"runtime/pprof"
 	"flag"
 	"fmt"
 	"os"
 	"os/exec"
 	"path/filepath"
+	"runtime/pprof"
 	"sort"
 	"strings"
 	"sync"
@@ -368,6 +368,9 @@ func runFuncs(keys []string, repo, verif string, verbose, dump bool, tmo int) in
 				fmt.Println("  inlined:", rep.Inlined)
 				fmt.Println("  abstracted:", rep.Abstracted)
 				fmt.Println("  contracts used:", rep.UsedContr)
+				if len(rep.AssumedTerm) > 0 {
+					fmt.Println("  assumed to terminate:", rep.AssumedTerm)
+				}
 			}
 			obls = rep.Obligations
 			if rep.exec != nil {
@@ -763,6 +766,9 @@ func writeEvidence(eng *Engine, pr *propRun, prop, tier, verif string, discharge
 		f["inlined_callees"] = rep.Inlined
 		f["abstracted_callees"] = rep.Abstracted
 		f["contracts_used_at_calls"] = rep.UsedContr
+		if len(rep.AssumedTerm) > 0 {
+			f["callees_assumed_to_terminate"] = rep.AssumedTerm
+		}
 		for _, u := range rep.UsedContr {
 			if c := eng.contracts.Funcs[u]; c != nil && c.Trusted {
 				assume["assumed contract of "+u] = true
